@@ -257,6 +257,21 @@ class MediaFile(ModelMixin["MediaFile"], Base):
                 details='At least 2 media segments are required')
             session.add(err)
             return False
+        missing_duration = [
+            str(idx) for idx, seg in enumerate(rep.segments)
+            if idx > 0 and seg.duration is None]
+        if missing_duration or not rep.codecs:
+            if missing_duration:
+                details = ('Failed to detect the duration of segment ' +
+                           ', '.join(missing_duration))
+            else:
+                details = 'Failed to detect the codec'
+            err = MediaFileError(
+                media_file=self,
+                reason=ErrorReason.NO_FRAGMENTS,
+                details=details)
+            session.add(err)
+            return False
         if rep.bitrate is None:
             err = MediaFileError(
                 media_file=self,
